@@ -19,8 +19,8 @@ def run(openmp, nthreads):
     cfg = get_config()
     cfg.use_openmp = openmp
     if openmp:
-        from pysph.base import nnps as _n
-        _n.set_number_of_threads(nthreads)
+        from pysph.base.omp_threads import set_number_of_threads
+        set_number_of_threads(nthreads)
     rng = np.random.default_rng(0)
     n = 20000
     fluid = get_particle_array(name='fluid', x=rng.random(n) * 0.02, y=rng.random(n) * 0.02, h=0.05, m=1.0, rho=1000.0)
